@@ -70,7 +70,7 @@ def make_reader(fmt, opts=None):
         return WebVTTReader(ignore_timing_errors=not strict, time_shift_milliseconds=shift)
     if fmt == "mdvd":
         return MicroDVDReader()
-    if fmt in ("dfxp", "dfxp-tree"):
+    if fmt in ("dfxp", "dfxp-tree", "dfxp-text"):
         return DFXPReader()
     if fmt in ("sami", "sami-tree"):
         return SAMIReader()
@@ -87,7 +87,7 @@ def extract(fmt, cs, lang=None, rlang=None):
         return times_of(cs, lang)
     if fmt == "sami":
         return {l: times_of(cs, l) for l in cs.get_languages()}
-    if fmt in ("dfxp-tree", "sami-tree"):
+    if fmt in ("dfxp-tree", "sami-tree", "dfxp-text"):
         return [[l, times_of(cs, l)] for l in cs.get_languages()]
     return times_of(cs)
 
@@ -527,10 +527,13 @@ def stream_dfxp_tree(ctx, acc, n):
     flat = [flatten_dfxp(tree) for (_, tree, _) in cases]
     outs = oracle_batch([(114, [None if tt is None else Some(tt), divs, ps]) for (tt, _, _), (divs, ps) in zip(cases, flat)])
     dd = acc.res["distribution"]
-    for (tt, tree, junk), (divs, ps), o in zip(cases, flat, outs):
-        doc = render_dfxp_doc(tt, tree, o[0])
+    docs = [render_dfxp_doc(tt, tree, o[0]) for (tt, tree, _), o in zip(cases, outs)]
+    # wave 7: the string-level reader model (request 121) reads the Python-assembled text too
+    text_models = oracle_batch([(121, doc) for doc in docs])
+    for (tt, tree, junk), (divs, ps), o, doc, tm in zip(cases, flat, outs, docs, text_models):
         model, expected, expected2, dom = r_result(o[1]), r_result(o[2]), r_result(o[3]), o[4] == 1
         obs = impl.call(lambda: dict_obs(DFXPReader().read(doc)))
+        check_text_model(acc, "dfxp-tree", doc, r_result(tm), obs, failing=dom and not junk)
         rec = {"input": plain([tt, tree]), "document": doc, "opts": None}
         langs = [nearest(tt, ch) for ch in divs]
         if len(set(langs)) < len(langs):
@@ -551,6 +554,106 @@ def stream_dfxp_tree(ctx, acc, n):
             acc.res["nontrivial"].add(("dfxp-tree", repr(rec["input"])))
     if cases:
         acc.res["samples"].append({"format": "dfxp-tree", "input": plain([cases[0][0], cases[0][1]])})
+
+# ---- DFXP documents AS TEXT (wave 7, requests 120 / 121): the whole text is rendered by the Coq renderer ----------
+def stream_dfxp_text(ctx, acc, n):
+    """abstract documents of coq/spec/SpecXmlDocT.v (structure + every lexical choice); the extracted string-level reader
+    model (coq/model/XmlRead.v: text -> tree -> DFXPReader.read) and the real DFXPReader read the SAME text."""
+    import xmldocgen as xg
+    cases = [xg.gen(ctx.rng, n_top=(ctx.rng.choice([30, 80]) if ctx.rng.random() < 0.02 else None)) for _ in range(n)]
+    outs = oracle_batch([(120, xg.wire_doc(d)) for (d, _) in cases])
+    dd = acc.res["distribution"]
+    for (d, g), o in zip(cases, outs):
+        if o == [-1]:
+            acc.res["disagreements"].append({"format": "dfxp-text", "what": "request 120 refused the abstract document",
+                                             "input": plain(xg.wire_doc(d))})
+            continue
+        doc = o[0]
+        model, expected, expected2, dom = r_result(o[1]), r_result(o[2]), r_result(o[3]), o[4] == 1
+        obs = impl.call(lambda: dict_obs(DFXPReader().read(doc)))
+        rec = {"input": None, "document": doc, "opts": None}
+        for key, val in (("dfxp_text_character_references", g.refs), ("dfxp_text_single_quoted_attributes", g.single),
+                         ("dfxp_text_close_before_begin", g.swapped), ("dfxp_text_paragraphs", g.ps),
+                         ("dfxp_text_blank_paragraphs_written_with_references_only", g.blank_ref_only)):
+            dd[key] = dd.get(key, 0) + val
+        if isinstance(model, Err) and model.code == 99:
+            dd["dfxp_text_outside_the_model_sublanguage"] = dd.get("dfxp_text_outside_the_model_sublanguage", 0) + 1
+        check_reuse(acc, "dfxp-text", {"input": None}, obs, doc, dom=dom)
+        compare_dict(acc, "dfxp-text", rec, expected, obs, model, dom, expected2)
+        if dom:
+            acc.res["nontrivial"].add(("dfxp-text", doc))
+    if cases:
+        acc.res["samples"].append({"format": "dfxp-text", "document": outs[0][0] if outs[0] != [-1] else None})
+
+def check_text_model(acc, fmt, doc, tmodel, obs, failing):
+    """the string-level reader model (coq/model/XmlRead.v, request 121) against the real DFXPReader on the same text.
+    Err 199 = the text is outside the modelled XML sublanguage (comments, CDATA, unquoted attributes...): counted."""
+    dd = acc.res["distribution"]
+    dd["dfxp_texts_read_by_the_string_level_model"] = dd.get("dfxp_texts_read_by_the_string_level_model", 0) + 1
+    if isinstance(tmodel, Err) and tmodel.code == 199:
+        dd["dfxp_texts_outside_the_model_sublanguage"] = dd.get("dfxp_texts_outside_the_model_sublanguage", 0) + 1
+        return
+    if same(obs, tmodel) or (isinstance(obs, Ok) and isinstance(tmodel, Ok) and sorted(obs.v) == sorted(tmodel.v)):
+        return
+    if failing:
+        acc.res["disagreements"].append({"format": fmt + "-string-model", "document": doc, "impl": show(obs), "model": show(tmodel)})
+    elif fmt.startswith("dfxp-corpus"):
+        # a fixture whose layout / style attributes are malformed is refused by parts of the reader the model does not
+        # contain (CaptionReadSyntaxError): the property is silent; counted on its own
+        dd["dfxp_corpus_texts_read_differently_(malformed_layout_or_times)"] = \
+            dd.get("dfxp_corpus_texts_read_differently_(malformed_layout_or_times)", 0) + 1
+    else:
+        differs(acc.res, {"format": fmt + "-string-model", "document": doc[:400], "impl": show(obs), "model": show(tmodel)})
+
+
+def stream_dfxp_corpus(ctx, acc):
+    """texts NOT rendered by Coq: the DFXP fixtures of pycaption's own test suite and what pycaption's DFXP writers write
+    for generated caption sets - read by the string-level model and by the real reader (differences recorded; failing
+    for the writer's output, whose times are integers and whose text is visible)."""
+    import importlib, sys, os
+    from pycaption import DFXPWriter, CaptionSet, CaptionList, Caption, CaptionNode
+    docs = []
+    try:
+        if ctx.repo not in sys.path:
+            sys.path.insert(0, ctx.repo)
+        fx = importlib.import_module("tests.fixtures.dfxp")
+        for name in sorted(dir(fx)):
+            f = getattr(fx, name)
+            if hasattr(f, "__wrapped__"):
+                try:
+                    d = f.__wrapped__()
+                except Exception:
+                    continue
+                if isinstance(d, str):
+                    docs.append(("fixture", d))
+    except Exception:
+        acc.res["distribution"]["dfxp_fixture_module_not_importable"] = 1
+    rng = ctx.rng
+    for _ in range(ctx.n(40, 600)):
+        langs = {}
+        for lang in rng.sample(["en-US", "fr", "de"], rng.choice([1, 1, 2])):
+            t = 0
+            caps = []
+            for _ in range(rng.choice([1, 2, 5])):
+                a = t + rng.choice([0, 1, 999, 1000, 123456, 3599999999])
+                b = a + rng.choice([1, 1000, 1001, 59999999, 2500000])
+                t = b
+                nodes = [CaptionNode.create_text(rng.choice(["x", "a & b", "<i>", "l'a \"q\"", "\u00e9\u4e2d"]))]
+                if rng.random() < 0.4:
+                    nodes += [CaptionNode.create_break(), CaptionNode.create_text("second")]
+                caps.append(Caption(a, b, nodes))
+            langs[lang] = CaptionList(caps)
+        w = impl.call(lambda: DFXPWriter().write(CaptionSet(langs)))
+        if isinstance(w, Ok):
+            docs.append(("writer", w.v))
+    tms = oracle_batch([(121, d) for (_, d) in docs])
+    dd = acc.res["distribution"]
+    for (kind, d), tm in zip(docs, tms):
+        obs = impl.call(lambda: dict_obs(DFXPReader().read(d)))
+        dd["dfxp_corpus_" + kind] = dd.get("dfxp_corpus_" + kind, 0) + 1
+        acc.res["evaluations"] += 1
+        # a fixture with malformed layout / times is refused by parts of the reader the model does not contain
+        check_text_model(acc, "dfxp-corpus-" + kind, d, r_result(tm), obs, failing=(kind == "writer"))
 
 
 def nearest(tt, chain):
@@ -808,12 +911,14 @@ def run(ctx):
     stream_sami(ctx, acc, q(300, 5000))
     stream_dfxp_tree(ctx, acc, q(400, 6000))
     stream_sami_tree(ctx, acc, q(250, 4000))
+    stream_dfxp_text(ctx, acc, q(300, 3000))
+    stream_dfxp_corpus(ctx, acc)
     stream_explicit(ctx, acc)
     stream_frame_rate(ctx, acc)
     stream_raw(ctx, acc, q(150, 2500))
     if ctx.thorough:
         sweep(ctx, acc)
-    res["streams"] = 9
+    res["streams"] = 11
     res["distribution"].setdefault("model_differences_outside_the_property", 0)
     res["notes"].append("malformed/raw stream, strict-unsorted WebVTT and blank paragraphs with junk time attributes: model "
                         "vs implementation compared incl. exception class; %d differences (recorded, NOT failing: the "
@@ -834,7 +939,15 @@ def run(ctx):
                    "{0,+-1,+-999,+-3600000,12345}, strict and lenient; LF and CRLF, 0-2 extra blank lines, cues without "
                    "text (in the domain for MicroDVD, counted out for SRT / WebVTT). DFXP documents: 1-4 divisions, "
                    "SAME-language and NESTED divisions, languages on tt / div / default, blank paragraphs; SAMI: 1-3 "
-                   "interleaved languages with blank paragraphs. Explicit well-formed spellings (failing stream): SAMI "
+                   "interleaved languages with blank paragraphs. DFXP AS TEXT (stream dfxp-text, the whole text rendered by "
+                   "the Coq renderer of spec/SpecXmlDocT.v): optional XML declaration, tt / head / styling / layout / body, "
+                   "1-4 divisions nested to depth 3, <metadata> / <set> children, paragraphs with text, <br/>, <span>; per "
+                   "attribute 1+ white-space characters before the name, 0+ around '=', single or double quotes, values with "
+                   "& < > and both quotes; begin / end / dur anywhere among up to 3 other attributes, close before begin in "
+                   "40%; every text character literal / entity or a decimal character reference (20%); blank paragraphs "
+                   "made of U+00A0 / U+2003 / U+3000 written literally or as references; about 1 in 50 with 30 / 80 "
+                   "divisions. The string-level model also reads the Python-assembled documents of the dfxp-tree stream, "
+                   "the DFXP fixtures of pycaption's tests and DFXPWriter output for generated caption sets. Explicit well-formed spellings (failing stream): SAMI "
                    "float-literal starts, WebVTT header text / BOM, CRLF SRT without final newline, MicroDVD rates .5 1e2 +25, "
                    "DFXP '1s' followed by a line break. ttp:frameRate other than 30: own stream, known finding. "
                    "Non-trivial: a distinct stamp with a non-zero hour, a fraction, a frame field, an offset metric, a "
@@ -848,13 +961,24 @@ def run(ctx):
                     "non-empty cue, in document order (C01_srt_doc_exact, C01_vtt_doc_exact, C01_mdvd_doc_exact)",
                     "DFXP abstract document with same-language and nested divisions: every paragraph with text goes to the "
                     "language of its nearest division, per language in document order (C01_dfxp_doc_exact); SAMI abstract "
-                    "tree (C01_sami_tree_exact)"],
+                    "tree (C01_sami_tree_exact)",
+                    "DFXP at STRING level (wave 7): for every abstract document with every lexical choice (white space in "
+                    "tags, quote characters, attribute order, xml:lang position, XML declaration, character references) "
+                    "the rendered text parses to its tree (C01_dfxp_text_to_tree) and the string-level reader returns "
+                    "exactly the denoted caption set (C01_dfxp_string_exact); well-formed text implies the tree-level "
+                    "domain (C01_dfxp_text_domain)"],
         "definitional_or_spec_internal": ["C01_vtt_shift (identity between two spec functions)",
                                           "C01_dfxp_blank_paragraph_ignored, C01_dfxp_missing_times_refused (unfold the "
                                           "model)", "C01_dfxp_long_fraction_refuted (history: the pre-fix variant)",
                                           "C01_dfxp_div_exact, C01_vtt_validation_transparent (liftings / corollaries)"],
-        "correspondence_only": ["DFXP/SAMI text -> abstract tree (BeautifulSoup / html.parser / lxml); the DFXP / SAMI "
-                                "documents are assembled by Python around Coq-rendered attribute strings",
+        "correspondence_only": ["SAMI text -> abstract tree (html.parser / BeautifulSoup-lxml); the SAMI documents are "
+                                "assembled by Python around Coq-rendered attribute strings",
+                                "DFXP text -> tree: since wave 7 INSIDE the model on the XML sublanguage of "
+                                "spec/SpecXmlDocT.v (theorem C01_dfxp_string_exact; the model parser stands for BeautifulSoup + "
+                                "html.parser and is executed against the real reader on every generated text, on the "
+                                "fixtures of pycaption's test suite and on DFXPWriter output); outside that sublanguage "
+                                "(comments, CDATA, DOCTYPE, unquoted attributes, HTML void / raw-text element names, "
+                                "character references 128..159, named HTML entities) correspondence only",
                                 "float() literals of SAMI starts / MicroDVD rates are modelled as decimal literals "
                                 "(dec_literal), exact below 2^53",
                                 "Python int()/isdigit()/\\d outside ASCII digit strings (never generated)",
@@ -916,7 +1040,7 @@ def replay(ctx, rec):
         fresh = read_with(fmt, rec["document"], opts, rec.get("lang"), rec.get("rlang"))
         return show(reused) != show(fresh), [show(reused), show(fresh)]
     if rec.get("replay") == "tree":
-        reader = DFXPReader if fmt == "dfxp-tree" else SAMIReader
+        reader = SAMIReader if fmt == "sami-tree" else DFXPReader
         obs = impl.call(lambda: dict_obs(reader().read(rec["document"])))
         return show(obs) != rec["expected"], show(obs)
     opts = rec.get("opts")
